@@ -67,7 +67,8 @@ TRUSTED = [
     "simnet (in-memory transports, virtual clock) drives the real aioftp.Server faithfully",
 ]
 ASSUMPTIONS = [
-    "modelled, not verified: user managers other than MemoryUserManager whose get_user/notify_logout really suspend",
+    "modelled, not verified: user managers whose get_user, or notify_logout called from user(), really suspend (a notify_logout "
+    "that suspends in the teardown task is inside the model: phase Closing, event LogoutRuns, and is exercised)",
     "under asyncio's FIFO scheduling the greeting task always runs before its dispatcher can end; the model also covers the "
     "order 'session ends before the greeting ran' (never observed on the implementation)",
 ]
@@ -126,12 +127,29 @@ def cfg_sx(cfg, fin):
 
 
 # ----------------------------------------------------------------------------- actions -> model events
-def model_events(actions):
-    """returns (events, boundaries): boundaries[k] = index of the last model event of action k"""
+def model_events(actions, gated=False):
+    """returns (events, boundaries): boundaries[k] = index of the last model event of action k.
+    gated: the logout notification a session's teardown starts is held open by the harness (GatedUserManager): the model's
+    LogoutRuns i happens only at the action ("release", i) -- until then the session is in the model's Closing phase"""
     evs, bounds = [], []
     n = 0
     for a in actions:
         kind = a[0]
+        if kind == "release":
+            evs.append([LOGOUT, a[1], ""])
+            bounds.append(len(evs) - 1)
+            continue
+        if kind == "restart":  # Server.start() again on the same object: counters and (dead) sessions persist, no event
+            evs.append([OTHER, 99, ""])
+            bounds.append(len(evs) - 1)
+            continue
+        if kind == "end_close":
+            # session a[1] ends (QUIT | EOF | RST) and Server.close() lands a[3] loop iterations later (a second close()
+            # a[4] iterations after the first was started, when given): whichever order the implementation sees, after
+            # quiescence the session is gone, its logout has run and the server is closed
+            evs += [[DROP, a[1], ""], [LOGOUT, a[1], ""], [SCLOSE, 0, ""]] + [[LOGOUT, j, ""] for j in range(n)]
+            bounds.append(len(evs) - 1)
+            continue
         if kind == "connect":
             evs += [[CONNECT, 0, ""], [GREETING, n, ""], [LOGOUT, n, ""]]
             n += 1
@@ -157,6 +175,11 @@ def model_events(actions):
         else:
             raise ValueError(a)
         bounds.append(len(evs) - 1)
+    if gated:
+        # keep the indices: a held logout is replaced by a no-op on a session that does not exist
+        keep_from = [k for k, a in enumerate(actions) if a[0] == "release"]
+        rel = {bounds[k] for k in keep_from}
+        evs = [e if (e[0] != LOGOUT or idx in rel) else [OTHER, 99, ""] for idx, e in enumerate(evs)]
     return evs, bounds
 
 
@@ -184,6 +207,47 @@ class BoomUserManager(aioftp.MemoryUserManager):
         if login == "boom":
             raise RuntimeError("injected get_user failure")
         return await super().get_user(login)
+
+
+class GatedUserManager(BoomUserManager):
+    """the logout notification that a session's teardown starts (dispatcher `finally`: its own task) SUSPENDS until the
+    harness releases it: the teardown window of a session stays open for as long as the harness wants, and other
+    events (Server.close(), a second close(), other sessions) can be placed inside it.  notify_logout called from
+    user() (re-USER) is not held: that would be a suspension inside user(), which is outside the model.
+    The accounting itself is MemoryUserManager's."""
+
+    def __init__(self, users, session_of_task):
+        super().__init__(users)
+        self.session_of_task = session_of_task
+        self.gates = {}  # session index -> list of futures
+
+    def notify_logout(self, user):
+        # runs synchronously in the caller's task: the dispatcher (finally block) or a command handler (user())
+        i = self.session_of_task(asyncio.current_task())
+        return self._notify(user, i)
+
+    async def _notify(self, user, i):
+        if i is not None:
+            f = asyncio.get_running_loop().create_future()
+            self.gates.setdefault(i, []).append((f, user))
+            await f
+        await super().notify_logout(user)
+
+    def release(self, i=None):
+        n = 0
+        for j, fs in list(self.gates.items()):
+            if i is None or j == i:
+                for f, _ in fs:
+                    if not f.done():
+                        f.set_result(None)
+                        n += 1
+                self.gates[j] = []
+        return n
+
+    def held(self, user, registered=()):
+        """logout notifications of `user` that were started and not yet allowed to run, of sessions that are no
+        longer registered (a registered session is counted through server.connections)"""
+        return sum(1 for j, fs in self.gates.items() if j not in registered for (f, u) in fs if u is user and not f.done())
 
 
 class LogCap(logging.Handler):
@@ -215,11 +279,34 @@ def run_impl(cfg, actions, segment=False):
         if segment:
             net.default_segmenter = lambda b: [b[i : i + 1] for i in range(len(b))]
         users = [aioftp.User(l, p, maximum_connections=m) for (l, p, m) in cfg["users"]]
-        um = BoomUserManager(users)
+        gated = bool(cfg.get("gated"))
+        raws = []
+
+        def session_of_task(task):
+            for c in server.connections.values():
+                if c._dispatcher is task:
+                    for j, r in enumerate(raws):
+                        if r.writer.transport.get_extra_info("sockname")[1] == c.client_port:
+                            return j
+            return None
+
+        um = GatedUserManager(users, session_of_task) if gated else BoomUserManager(users)
         server = aioftp.Server(um, maximum_connections=cfg["limit"], idle_timeout=IDLE)
         await server.start("127.0.0.1", PORT)
-        raws = []
         closed = [False]
+        close_tasks = []
+        extra_q = []
+
+        async def do_close():
+            """Server.close(): awaited directly, or - when logout notifications are held - started as a task (close()
+            itself waits for the dispatchers it cancelled, and those wait for their logout notification)"""
+            closed[0] = True
+            if gated:
+                close_tasks.append(asyncio.create_task(server.close()))
+                await net.settle()
+            else:
+                await server.close()
+                await net.settle()
 
         def conn_of(raw):
             cport = raw.writer.transport.get_extra_info("sockname")[1]
@@ -232,7 +319,9 @@ def run_impl(cfg, actions, segment=False):
             return sum(1 for c in server.connections.values() if c.acquired and c is not exclude)
 
         def count_user(u, exclude=None):
-            return sum(
+            # a session whose teardown has started but whose logout notification has not run yet still holds its user slot
+            pending = um.held(u, {j for j, r in enumerate(raws) if conn_of(r) is not None}) if gated else 0
+            return pending + sum(
                 1 for c in server.connections.values() if c is not exclude and c.future.user.done() and c.user is u
             )
 
@@ -335,9 +424,40 @@ def run_impl(cfg, actions, segment=False):
                     await asyncio.sleep(pause)
                     await net.settle()
             elif kind == "close":
-                await server.close()
-                closed[0] = True
+                await do_close()
+            elif kind == "release":
+                if gated:
+                    um.release(a[1])
                 await net.settle()
+            elif kind == "restart":
+                if closed[0] and all(t.done() for t in close_tasks):
+                    await server.start("127.0.0.1", PORT)
+                    closed[0] = False
+                await net.settle()
+            elif kind == "end_close":
+                raw = raws[a[1]]
+                how, k1 = a[2], a[3]
+                k2 = a[4] if len(a) > 4 else None
+                if how == "quit":
+                    if conn_of(raw) is not None:
+                        raw.writer.write(b"QUIT\r\n")
+                elif how == "drop":
+                    raw.close()
+                else:
+                    raw.writer.transport.abort()
+                for _ in range(k1):  # Server.close() lands k1 loop iterations into whatever the end has set off
+                    await asyncio.sleep(0)
+                closed[0] = True
+                if k2 is None:
+                    await server.close()
+                else:
+                    t1 = asyncio.create_task(server.close())
+                    for _ in range(k2):
+                        await asyncio.sleep(0)
+                    await server.close()  # a second close(): a second cancel for whoever is still registered
+                    await t1
+                await net.settle()
+                raw.take()
             elif kind == "connect_close":
                 raw = await Raw.connect(net, PORT)  # returns before the dispatcher task has run
                 raws.append(raw)
@@ -349,10 +469,21 @@ def run_impl(cfg, actions, segment=False):
         for r in raws:
             r.close()
         await net.settle()
+        if gated:
+            um.release()
+            await net.settle()
         if not closed[0]:
-            await server.close()
+            await do_close()
+        if gated:
+            for _ in range(3):
+                um.release()
+                await net.settle()
+            for t in close_tasks:
+                if not t.done():
+                    extra_q.append(("c10-quiescent", "Server.close() has not returned although every logout notification was released"))
+                    t.cancel()
         await net.settle()
-        q = []
+        q = list(extra_q)
         ac = server.available_connections
         if ac.value != ac.maximum_value:
             q.append(("c10-quiescent", f"server counter {ac.value} of {ac.maximum_value} after all sessions ended"))
@@ -423,8 +554,25 @@ def expected_codes(msnaps, lo, hi, action):
     return codes
 
 
+class _Capped:
+    """records at most 60 disagreements; the oracle keeps being evaluated on every history regardless"""
+
+    def __init__(self, ctx):
+        self.ctx = ctx
+
+    def __getattr__(self, name):
+        return getattr(self.ctx, name)
+
+    def disagree(self, *a):
+        if len(self.ctx.disagreements) < 60:
+            self.ctx.disagree(*a)
+        else:
+            self.ctx.count("disagreements_not_recorded", 1)
+
+
 def check_history(ctx, cfg, actions, msnaps, bounds, segment, stream):
     ctx.traces_impl += 1
+    ctx = _Capped(ctx)
     snaps, problems = run_impl(cfg, actions, segment)
     replay = {"cfg": cfg, "actions": actions, "segment": segment}
     ok = True
@@ -565,6 +713,64 @@ def crash_points():
     return out
 
 
+TEARDOWN_PREFIXES = [
+    [("connect",), ("cmds", 0, [("USER", "b")])],                                   # logged in, no password
+    [("connect",), ("cmds", 0, [("USER", "a")]), ("cmds", 0, [("PASS", "pw")])],    # logged in with password
+    [("connect",), ("cmds", 0, [("USER", "a")])],                                   # user slot taken, not logged in
+    [("connect",)],                                                                 # no user: server slot only
+]
+
+
+def teardown_tail(closed, n):
+    """after the window: every held logout runs, the SAME Server object is started again when it was closed, and a
+    fresh session must be admitted and logged in exactly as the (full) counters say"""
+    tail = [("release", j) for j in range(n)]
+    if closed:
+        tail.append(("restart",))
+    return tail + [("connect",), ("cmds", n, [("USER", "b")]), ("cmds", n, [("QUIT", "")]), ("release", n)]
+
+
+def teardown_gated(rng, sample):
+    """histories for the GatedUserManager: the teardown window of a session (dispatcher finally started, logout
+    notification suspended) is held open and Server.close(), a second close(), another session's end and the releases
+    are placed inside it in every order (sequences over the alphabet up to length 2 exhaustively, length 3 sampled)"""
+    import itertools
+
+    out = []
+    for prefix in TEARDOWN_PREFIXES:
+        for second in (False, True):
+            pre = list(prefix) + ([("connect",), ("cmds", 1, [("USER", "b")])] if second else [])
+            n = 2 if second else 1
+            for ending in ("quit", "drop", "reset", "idle", None):
+                head = pre + ([ending_action(ending, 0)] if ending else [])
+                alphabet = [("close",), ("release", 0)] + ([("release", 1), ("drop", 1), ("cmds", 1, [("QUIT", "")])] if second else [])
+                seqs = [list(x) for k in (1, 2) for x in itertools.product(alphabet, repeat=k)]
+                seqs3 = [list(x) for x in itertools.product(alphabet, repeat=3)]
+                seqs += seqs3 if sample is None else rng.sample(seqs3, min(sample, len(seqs3)))
+                for seq in seqs:
+                    out.append(head + seq + teardown_tail(("close",) in seq, n))
+    return out
+
+
+def teardown_sweep(kmax, k2s):
+    """stock user manager: a session ends (QUIT | EOF | RST) and Server.close() lands k loop iterations later, for
+    every k up to kmax (the whole teardown takes fewer iterations than that), optionally with a second close() k2
+    iterations after the first one was started; then the same Server object is started again"""
+    out = []
+    for pi, prefix in enumerate(TEARDOWN_PREFIXES):
+        for second in (False, True):
+            if second and pi % 2:
+                continue
+            pre = list(prefix) + ([("connect",), ("cmds", 1, [("USER", "b")])] if second else [])
+            n = 2 if second else 1
+            for how in ("quit", "drop", "reset"):
+                for k in range(kmax + 1):
+                    for k2 in k2s:
+                        a = ("end_close", 0, how, k) if k2 is None else ("end_close", 0, how, k, k2)
+                        out.append(pre + [a, ("restart",), ("connect",), ("cmds", n, [("USER", "b")])])
+    return out
+
+
 def random_history(rng, max_sessions=3, length=14):
     acts = []
     n = 0
@@ -630,7 +836,12 @@ def correspondence(ctx, budget=None):
         "over <= 3 sessions, run on the real Server on simnet and on the extracted model; streams: (a) bounded-exhaustive: every "
         "sequence up to depth d over <= 2 sessions for a set of limit configurations, (b) crash points: 5 base scripts cut after "
         "every action by every ending kind on every session, then continued, (c) random histories over 3 sessions incl. bursts and "
-        "byte-by-byte segmentation; configurations: server limit {None,1,2} x limit(a) {None,1,2} x limit(b) {None,1,2} x user lists "
+        "byte-by-byte segmentation, (d) inside a session's teardown: with a user manager whose logout notification (started by the "
+        "dispatcher's finally as its own task) stays suspended until the harness releases it, Server.close(), a second close(), the "
+        "other session's end and the releases are placed in every order inside the window (sequences up to length 2 exhaustively, "
+        "length 3 sampled; the model's Closing phase / LogoutRuns event), and with the stock manager Server.close() k = 0..14 loop "
+        "iterations after QUIT/EOF/RST, optionally a second close() k2 iterations after the first was started; afterwards the SAME "
+        "Server object is started again and a fresh session must be admitted as the counters say; configurations: server limit {None,1,2} x limit(a) {None,1,2} x limit(b) {None,1,2} x user lists "
         "{[a,b], [a,anonymous], [anonymous,a]} plus limit 0. One evaluation = one (configuration, history prefix): the real counter "
         "objects, session flags and reply codes compared with the model and the conservation equations evaluated on the real "
         "objects; non-trivial = distinct (configuration, prefix)."
@@ -676,11 +887,27 @@ def correspondence(ctx, budget=None):
         jobs.append(("random", c, random_history(rng), rng.random() < 0.25))
     ctx.count("random_histories", n_rand)
 
+    # (d) inside a session's teardown: Server.close() / a second close() / other sessions' ends at every point of the window
+    gated_cfgs = [dict(make_cfg(1, "ab", 1, 1), gated=True), dict(make_cfg(2, "ab", 1, 2), gated=True)]
+    if thorough:
+        gated_cfgs[1] = dict(make_cfg(2, "a_anon", 1, 1), gated=True)
+        gated_cfgs.append(dict(make_cfg(2, "ab", 1, 2), gated=True))
+    tg = teardown_gated(rng, None if thorough else 12)
+    for ci, c in enumerate(gated_cfgs):
+        for s in tg if ci == 0 or (thorough and ci == 1) else rng.sample(tg, len(tg) // 3):
+            jobs.append(("teardown-gated", c, s, False))
+    ts = teardown_sweep(24 if thorough else 14, [None, 0, 1, 2, 3, 5] if thorough else [None, 0, 2])
+    for c in [make_cfg(1, "ab", 1, 1)] + ([make_cfg(2, "ab", 1, 2), make_cfg(2, "a_anon", 1, 1)] if thorough else []):
+        for s in ts:
+            jobs.append(("teardown-sweep", c, s, False))
+    ctx.count("teardown_gated_histories", sum(1 for j in jobs if j[0] == "teardown-gated"))
+    ctx.count("teardown_sweep_histories", sum(1 for j in jobs if j[0] == "teardown-sweep"))
+
     jobs = [(st, c, tojson(a), seg) for (st, c, a, seg) in jobs]
     # model, in one batch
     cases, metas = [], []
     for stream, cfg, actions, seg in jobs:
-        evs, bounds = model_events(actions)
+        evs, bounds = model_events(actions, gated=bool(cfg.get("gated")))
         cases.append((0, [cfg_sx(cfg, fin), evs]))
         metas.append(bounds)
     mres = ctx.model(cases)
@@ -695,7 +922,7 @@ def correspondence(ctx, budget=None):
             xcheck.append((0, case[1], msnaps))
         if stream == "random":
             ctx.sample({"cfg": cfg, "actions": actions, "segment": seg})
-        if len(ctx.violations) > 20 or len(ctx.disagreements) > 50:
+        if len(ctx.violations) > 20:
             break
     for k, v in sorted(kinds.items()):
         ctx.count("action:" + k, v)
